@@ -60,12 +60,12 @@ func init() {
 		ID:       "C01",
 		Anchored: []string{"Ltoi", ").At", ").SetAt", "CalcStrides", ").Get", ").Set", "WithBacking", "WithShape", "AsFortran", ").fix", ").sanity", "calcStrides"},
 		Bounds: map[string]interface{}{"coordinates": "every component symbolic over the full int64 range", "elements": "symbolic, full range of the dtype (FP theory for floats)",
-			"shapes": "instantiated: quick = (),(3),(1,3),(3,1),(2,3),(2,1,2),(2,2,2); thorough = all rank<=3 dims<=3 and rank 4 dims<=2", "symbolic_dims_harness": "rank<=3 (quick) / <=4 (thorough), every dim symbolic in 1..5",
-			"arity": "rank-1, rank, rank+1", "layouts": "C, T (default reversal), S (interior unit-step window on axis 0), TS", "construction": "row-major, AsFortran(nil) over raw backing, AsFortran(backing)"},
+			"shapes": "instantiated: quick = (),(3),(1,3),(3,1),(2,3),(2,1,2),(2,2,2),(1,3,1); thorough = all rank<=3 dims<=3 and rank 4 dims<=2", "symbolic_dims_harness": "rank<=3 (quick) / <=4 (thorough), every dim symbolic in 1..5",
+			"arity": "rank-1, rank, rank+1", "layouts": "C, T (default reversal), S (interior unit-step window on axis 0), TS, PP (two successive lazy transposes by an axis rotation, rank>=3)", "construction": "row-major, AsFortran(nil) over raw backing in three option orders, AsFortran(backing)"},
 		Assume: []string{"user-registered dtypes and non-StdEng engines are outside the claim"},
 		Instances: func(tier string, seed int64) []Instance {
 			var out []Instance
-			shapes := quickShapes
+			shapes := append(append([][]int{}, quickShapes...), []int{1, 3, 1}) // (+ a vector-like rank-3 shape)
 			dts := []string{"bool", "int", "int8", "uint16", "float32", "float64", "complex128", "string"}
 			if tier == "thorough" {
 				shapes = thoroughShapes()
@@ -73,9 +73,15 @@ func init() {
 			}
 			for si, sh := range shapes {
 				for di, dt := range dts {
-					for _, variant := range []string{"row", "fraw", "fconv"} {
-						for _, lay := range []string{"C", "T", "S", "TS"} {
+					for _, variant := range []string{"row", "fraw", "fconv", "fraw2", "fraw3"} {
+						for _, lay := range []string{"C", "T", "S", "TS", "PP"} {
 							if (lay == "S") && (len(sh) == 0 || sh[0] < 2) {
+								continue
+							}
+							if lay == "PP" && (len(sh) < 3 || variant != "row") {
+								continue // (a second lazy transpose moves the data; for column-major tensors that is C03's open finding)
+							}
+							if (variant == "fraw2" || variant == "fraw3") && (len(sh) < 2 || (tier == "quick" && lay != "C" && lay != "S")) {
 								continue
 							}
 							if lay == "TS" && (len(sh) == 0 || sh[len(sh)-1] < 2) {
@@ -86,7 +92,7 @@ func init() {
 							}
 							if tier == "quick" {
 								// pairwise-style thinning: all dtypes on row/C, rotating subset elsewhere
-								keep := (variant == "row" && lay == "C") || (si+di)%4 == 0
+								keep := (variant == "row" && lay == "C") || (si+di)%4 == 0 || (lay == "PP" && variant == "row" && di%3 == 0)
 								// every element-size class goes through the converting constructor on a non-square shape
 								if variant == "fconv" && (lay == "C" || lay == "T") && len(sh) == 2 && sh[0] == 2 && sh[1] == 3 {
 									keep = true
@@ -193,7 +199,7 @@ func init() {
 		ID:       "C03",
 		Anchored: []string{").T", ").UT", ").Transpose", ").SafeT", ").RollAxis", "UnsafePermute", "denseTranspose", "transposeMask", "IsMonotonicInts", "tensor.T", "TransposeIndex"},
 		Bounds: map[string]interface{}{"axes": "every entry of every axes vector symbolic in [-1, rank]; permutations enumerated by solver-driven splitting after the call (complete: final unsat query); RollAxis (axis,start) symbolic in [-1, rank+1]",
-			"elements": "symbolic", "shapes": "quick: (3),(2,3),(3,1),(1,3),(2,3,2),(2,2,3); thorough adds (2,2,2),(3,2,2),(2,1,3),(2,2,3,2),(2,1,2,2),(2,2,1,2,2)",
+			"elements": "symbolic", "shapes": "quick: (3),(2,3),(3,1),(1,3),(2,3,2),(2,2,3),(1,3,1),(3,1,1),(1,1,2,1); thorough adds (2,2,2),(3,2,2),(2,1,3),(2,2,3,2),(2,1,2,2),(2,2,1,2,2)",
 			"programs": "sequences over {T(sym), T(), UT, Transpose, Materialize, SafeT(sym), tensor.T(sym), RollAxis(sym)} of length <=3 (quick <=2 on rank 3)", "element_sizes": "1,2,4,8,16 bytes and string", "sources": "contiguous, sliced view, column-major",
 			"invalid_axes": "outside the statement: nothing asserted"},
 		Instances: func(tier string, seed int64) []Instance {
@@ -205,7 +211,9 @@ func init() {
 			p2 := []string{"T", "D", "TU", "TX", "DX", "TM", "S", "Z", "R", "RU", "TT", "TXT", "TXU", "DTX", "RX", "ST"}
 			p3 := []string{"T", "TU", "TX", "TM", "S", "R", "RU", "TT", "DT", "TD", "RX", "TTX"}
 			shapes := []sp{{[]int{3}, []string{"T", "D", "TX", "S", "R"}}, {[]int{2, 3}, p2}, {[]int{3, 1}, p2}, {[]int{1, 3}, []string{"T", "TX", "TT", "S", "R", "DX"}},
-				{[]int{2, 3, 2}, p3}, {[]int{2, 2, 3}, []string{"TT", "TX", "S", "R", "TXT"}}}
+				{[]int{2, 3, 2}, p3}, {[]int{2, 2, 3}, []string{"TT", "TX", "S", "R", "TXT"}},
+				// vector-like shapes of rank 3-4 (one non-unit axis): the "vector" fast paths of T/Transpose
+				{[]int{1, 3, 1}, []string{"TT", "TX", "TD", "R"}}, {[]int{3, 1, 1}, []string{"TT", "TXT"}}, {[]int{1, 1, 2, 1}, []string{"T", "TX"}}}
 			if tier == "thorough" {
 				p3t := append(append([]string{}, p3...), "TXT", "TXU", "Z", "RT", "TR", "DX", "SX")
 				shapes = append(shapes, sp{[]int{2, 2, 2}, p3t}, sp{[]int{3, 2, 2}, p3t}, sp{[]int{2, 1, 3}, p3t}, sp{[]int{2, 3, 2}, p3t},
